@@ -37,6 +37,7 @@ type XInst struct {
 	Ops  []XOp  `json:"ops"`
 	Form string `json:"form"` // operand form, e.g. "r16,imm"
 	Cell string `json:"cell"`
+	Pre  string `json:"pre,omitempty"` // lines in front of the statement that emit nothing (EQU definitions the operands mention)
 }
 
 func (x *XInst) Stmt() string {
@@ -52,9 +53,9 @@ func (x *XInst) Stmt() string {
 
 func (x *XInst) Source() string {
 	if x.Mode == 32 {
-		return "[BITS 32]\n" + x.Stmt() + "\n"
+		return "[BITS 32]\n" + x.Pre + x.Stmt() + "\n"
 	}
-	return x.Stmt() + "\n"
+	return x.Pre + x.Stmt() + "\n"
 }
 
 // ---- operand constructors ---------------------------------------------------
